@@ -25,8 +25,10 @@ def run():
         names = sorted(os.path.basename(os.path.dirname(p)) for p in
                        glob.glob(os.path.join(common.OVERLAY_SRC, "internal/verifh/*/main.go")))
         for n in names:
-            common.go_build(n)
+            common.go_build(n, race=(n == "c18"))
             print("setup: built harness", n)
+        common.go_build("c02", pkg="./cmd/nginx-ingress")
+        print("setup: built harness c02")
     except common.TieBroken as e:
         print("setup: %s" % e)
         rc = 1
